@@ -369,7 +369,18 @@ def r6_time_search(cx):
     cx.require(bool(lp) and not [b for b in walk_body(lp[0].body) if isinstance(b, (ast.Break, ast.Return))], lp[0] if lp else fn, "all lines are visited in order", construct="for line in self.lines")
     # unknown directive
     rep = [n for n in fn.body if isinstance(n, FUNC_TYPES) and n.name == "replacer"]
-    ok = bool(rep) and any(isinstance(r, ast.Raise) and "ParseException" in U(r.exc) and ("match.group(1) in format_conversion_for", False) in guard_texts(r) for r in walk_body(rep[0].body))
+    ok = False
+    if rep:
+        for r in [x for x in walk_body(rep[0].body) if isinstance(x, ast.Raise) and "ParseException" in U(x.exc)]:
+            g = guard_texts(r)
+            if ("match.group(1) in format_conversion_for", False) in g:
+                ok = True
+            # look-up with a default:  v = format_conversion_for.get(match.group(1)); if v is None: raise
+            for t, p in g:
+                if p and t.endswith(" is None") and t[:-8].isidentifier():
+                    ds = assigns_to(rep[0], t[:-8])
+                    if len(ds) == 1 and U(ds[0].value) in ("format_conversion_for.get(match.group(1))", "format_conversion_for.get(match.group(1), None)"):
+                        ok = True
     cx.require(ok, rep[0] if rep else fn, "an unknown strptime directive is a ParseException", construct="replacer: else raise ParseException")
     if table is None:
         cx.unknown(fn, "format_conversion_for is not a literal dict")
